@@ -201,4 +201,802 @@ theorem tryAndIncrement_mono (sq : SqrtOK o) {g : Bool} {f₁ f₂ : Nat} (hf : 
   rw [hy, hx₁, e2]
 
 end TryInc
+
+
+/-! ## 2. the two coordinate fields -/
+section ConcreteTry
+
+theorem incr_opsFq (x : Fq) (n : Nat) : incr opsFq x n = x + (n : Fq) := by
+  induction n generalizing x with
+  | zero => simp [incr]
+  | succ n ih =>
+    rw [incr, ih]
+    show x + 1 + (n : Fq) = x + ((n + 1 : Nat) : Fq)
+    push_cast; ring
+
+theorem incr_opsFq2 (x : Fq2) (n : Nat) : incr opsFq2 x n = ⟨x.c0 + (n : Fq), x.c1⟩ := by
+  induction n generalizing x with
+  | zero => simp [incr]
+  | succ n ih =>
+    rw [incr, ih]
+    show (⟨x.c0 + 1 + (n : Fq), x.c1 + 0⟩ : Fq2) = ⟨x.c0 + ((n + 1 : Nat) : Fq), x.c1⟩
+    congr 1
+    · push_cast; ring
+    · exact add_zero _
+
+theorem hasPoint_opsFq_iff (x : Fq) : HasPoint opsFq x ↔ ∃ y : Fq, y * y = x * x * x + g1B := Iff.rfl
+theorem hasPoint_opsFq2_iff (x : Fq2) : HasPoint opsFq2 x ↔ ∃ y : Fq2, y * y = x * x * x + g2B := Iff.rfl
+
+/-- (0, 2) is on E(Fq): y² = x³ + 4 -/
+theorem hasPoint_opsFq_zero : HasPoint opsFq 0 := ⟨2, by decide +kernel⟩
+
+theorem fq_add_neg_val (x : Fq) : x + (((-x).val : Nat) : Fq) = 0 := by
+  rw [Fin.cast_val_eq_self]; exact add_neg_cancel x
+
+/-- **G1 try-and-increment is total, with an explicit bound.**  For every start value `x₀ ∈ Fq` and flag, the loop stops
+after at most `(−x₀).val ≤ q − 1` increments (at the latest on `x = 0`, where `(0, ±2)` lies on the curve): with any fuel
+above that bound the model returns the first `x₀ + n` (n ≥ 0) with `x³ + 4` a square, and the root with the requested sign bit. -/
+theorem g1_tryAndIncrement_total (x₀ : Fq) (g : Bool) (fuel : Nat) (hf : (-x₀).val < fuel) :
+    ∃ (n : Nat) (y : Fq), tryAndIncrement opsFq x₀ g fuel = some (x₀ + (n : Fq), y, n) ∧ n ≤ (-x₀).val ∧
+      (∀ j, j < n → ¬ ∃ y' : Fq, y' * y' = (x₀ + (j : Fq)) * (x₀ + (j : Fq)) * (x₀ + (j : Fq)) + g1B) ∧
+      y * y = (x₀ + (n : Fq)) * (x₀ + (n : Fq)) * (x₀ + (n : Fq)) + g1B ∧ isGreater opsFq y = g := by
+  classical
+  have hex : ∃ n, HasPoint opsFq (incr opsFq x₀ n) :=
+    ⟨(-x₀).val, by rw [incr_opsFq, fq_add_neg_val]; exact hasPoint_opsFq_zero⟩
+  have hle : Nat.find hex ≤ (-x₀).val :=
+    Nat.find_min' hex (by rw [incr_opsFq, fq_add_neg_val]; exact hasPoint_opsFq_zero)
+  obtain ⟨y, hy, hfx⟩ := tryAndIncrement_first_hit opsFq_sqrtOK g (Nat.find hex) x₀ fuel (by omega)
+    (fun i hi => Nat.find_min hex hi) (Nat.find_spec hex)
+  obtain ⟨_, hon, hgr⟩ := fromX_checked_some opsFq_sqrtOK hfx
+  refine ⟨Nat.find hex, y, by rw [← incr_opsFq]; exact hy, hle, ?_, ?_, hgr⟩
+  · intro j hj
+    have := Nat.find_min hex hj
+    rwa [incr_opsFq] at this
+  · rw [← incr_opsFq]; exact hon
+
+/-- fuel `q` suffices for every start value. -/
+theorem g1_tryAndIncrement_total_q (x₀ : Fq) (g : Bool) : (tryAndIncrement opsFq x₀ g q).isSome = true := by
+  obtain ⟨n, y, h, _⟩ := g1_tryAndIncrement_total x₀ g q (-x₀).isLt
+  rw [h]; rfl
+
+/-- what G2 totality needs and we cannot prove (it is a statement about the x-projection of E'(Fq2) meeting every
+"line" `c1 = t`; true for BLS12-381 by the Hasse–Weil bound for a genus-2 curve, which is out of reach here): -/
+def HLine (t : Fq) : Prop := ∃ a : Fq, HasPoint opsFq2 ⟨a, t⟩
+
+/-- **G2 try-and-increment, totality under `HLine`** (the loop only ever changes the `c0` coordinate, by 1): with fuel
+above `(a − x₀.c0).val` — in particular with fuel `q` — the model returns the first hit.
+PARTIAL: the unconditional statement `∀ x₀ g, (tryAndIncrement opsFq2 x₀ g q).isSome` needs `∀ t, HLine t`. -/
+theorem g2_tryAndIncrement_total_partial (x₀ : Fq2) (g : Bool) (fuel : Nat) (a : Fq) (ha : HasPoint opsFq2 ⟨a, x₀.c1⟩)
+    (hf : (a - x₀.c0).val < fuel) :
+    ∃ (n : Nat) (y : Fq2), tryAndIncrement opsFq2 x₀ g fuel = some (⟨x₀.c0 + (n : Fq), x₀.c1⟩, y, n) ∧ n ≤ (a - x₀.c0).val ∧
+      (∀ j, j < n → ¬ HasPoint opsFq2 ⟨x₀.c0 + (j : Fq), x₀.c1⟩) ∧
+      y * y = (⟨x₀.c0 + (n : Fq), x₀.c1⟩ : Fq2) * ⟨x₀.c0 + (n : Fq), x₀.c1⟩ * ⟨x₀.c0 + (n : Fq), x₀.c1⟩ + g2B ∧
+      isGreater opsFq2 y = g := by
+  classical
+  have hm : HasPoint opsFq2 (incr opsFq2 x₀ (a - x₀.c0).val) := by
+    rw [incr_opsFq2, Fin.cast_val_eq_self, add_sub_cancel]; exact ha
+  have hex : ∃ n, HasPoint opsFq2 (incr opsFq2 x₀ n) := ⟨_, hm⟩
+  have hle : Nat.find hex ≤ (a - x₀.c0).val := Nat.find_min' hex hm
+  obtain ⟨y, hy, hfx⟩ := tryAndIncrement_first_hit opsFq2_sqrtOK g (Nat.find hex) x₀ fuel (by omega)
+    (fun i hi => Nat.find_min hex hi) (Nat.find_spec hex)
+  obtain ⟨_, hon, hgr⟩ := fromX_checked_some opsFq2_sqrtOK hfx
+  refine ⟨Nat.find hex, y, by rw [← incr_opsFq2]; exact hy, hle, ?_, ?_, hgr⟩
+  · intro j hj
+    have := Nat.find_min hex hj
+    rwa [incr_opsFq2] at this
+  · rw [← incr_opsFq2]; exact hon
+
+theorem g2_tryAndIncrement_total_q_partial (x₀ : Fq2) (g : Bool) (h : HLine x₀.c1) :
+    (tryAndIncrement opsFq2 x₀ g q).isSome = true := by
+  obtain ⟨a, ha⟩ := h
+  obtain ⟨n, y, h, _⟩ := g2_tryAndIncrement_total_partial x₀ g q a ha (a - x₀.c0).isLt
+  rw [h]; rfl
+
+end ConcreteTry
+
+/-! ## 3. `from_hash` and `compute_id_from_hash` -/
+section FromHash
+
+theorem fqR_ne_zero : fqR ≠ 0 := by decide +kernel
+
+/-- reading back the stored (Montgomery) limbs of an element gives the element. -/
+theorem unmontC_montRep (x : Fq) : unmontC (montRep x) = x := by
+  unfold unmontC montRep
+  rw [Fin.ofNat_val_eq_self]
+  exact mul_inv_cancel_right₀ fqR_ne_zero x
+
+theorem q_lt_two_pow_381 : q < 2 ^ 381 := by decide +kernel
+
+set_option exponentiation.threshold 800 in
+/-- **`hash_reduce` inside `from_hash` is a no-op returning `false`**: it is applied to the limbs of a value that
+`read_big_endian` has already masked, reduced and put in Montgomery form, so the limbs are below `q < 2^381`: the top bit is
+clear, the mask changes nothing, no subtraction happens. -/
+theorem fqHashReduce_montRep (x : Fq) : fqHashReduce (montRep x) = (false, montRep x) := by
+  have hlt : montRep x < q := Fin.isLt _
+  have h381 : montRep x < 2 ^ 381 := lt_trans hlt q_lt_two_pow_381
+  have h384 : montRep x < 2 ^ 384 := lt_trans h381 (Nat.pow_lt_pow_right (by decide) (by decide))
+  obtain ⟨h1, _, h3, _⟩ := fqHashReduce_spec h384
+  rw [Nat.mod_eq_of_lt h381, Nat.mod_eq_of_lt hlt] at h3
+  rw [Nat.testBit_lt_two_pow (lt_trans h381 (Nat.pow_lt_pow_right (by decide) (by decide)))] at h1
+  exact Prod.ext h1 h3
+
+/-- `start.read_big_endian(hash); greater = start.hash_reduce();` for `BaseField = Fq`, on the stored limbs:
+(flag, element denoted by the limbs afterwards). -/
+def fromHashStartFq (hash : List UInt8) : Bool × Fq :=
+  let start := fqReadBE hash
+  let hr := fqHashReduce (montRep start)
+  (hr.1, unmontC hr.2)
+
+/-- the same for `BaseField = Fq2` (`Fq2::read_big_endian`: c0 from bytes 48..95, c1 from bytes 0..47;
+`Fq2::hash_reduce`: `c0.hash_reduce(); return c1.hash_reduce();`). -/
+def fromHashStartFq2 (hash : List UInt8) : Bool × Fq2 :=
+  let c0 := fqReadBE (hash.drop 48)
+  let c1 := fqReadBE (hash.take 48)
+  let h0 := fqHashReduce (montRep c0)
+  let h1 := fqHashReduce (montRep c1)
+  (h1.1, ⟨unmontC h0.2, unmontC h1.2⟩)
+
+/-- `G1Affine::from_hash(hash)`; `none` = fuel exhausted. -/
+def fromHashG1 (hash : List UInt8) (fuel : Nat) : Option (Fq × Fq × Nat) :=
+  tryAndIncrement opsFq (fromHashStartFq hash).2 (fromHashStartFq hash).1 fuel
+/-- `G2Affine::from_hash(hash)`. -/
+def fromHashG2 (hash : List UInt8) (fuel : Nat) : Option (Fq2 × Fq2 × Nat) :=
+  tryAndIncrement opsFq2 (fromHashStartFq2 hash).2 (fromHashStartFq2 hash).1 fuel
+
+/-- the start value is the hash read big-endian, top three bits dropped, reduced modulo `q`; the flag is always `false`. -/
+theorem fromHashStartFq_eq {hash : List UInt8} (h : hash.length = 48) :
+    fromHashStartFq hash = (false, Fin.ofNat q (ofBytesBE hash % 2 ^ 381)) := by
+  unfold fromHashStartFq
+  simp only [fqHashReduce_montRep, unmontC_montRep, fqReadBE_eq h]
+
+theorem fromHashStartFq2_eq {hash : List UInt8} (h : hash.length = 96) :
+    fromHashStartFq2 hash = (false, ⟨Fin.ofNat q (ofBytesBE (hash.drop 48) % 2 ^ 381),
+      Fin.ofNat q (ofBytesBE (hash.take 48) % 2 ^ 381)⟩) := by
+  unfold fromHashStartFq2
+  have h1 : (hash.drop 48).length = 48 := by rw [List.length_drop, h]
+  have h2 : (hash.take 48).length = 48 := by rw [List.length_take, h]; rfl
+  simp only [fqHashReduce_montRep, unmontC_montRep, fqReadBE_eq h1, fqReadBE_eq h2]
+
+/-- **the explicit model is what the judge runs** (Driver/Judge3, ops `g1_hash`, `g2_hash`, `id_hash`:
+`tryAndIncrement fo (fo.ofBytes bs) false fuel`). -/
+theorem fromHashG1_eq_judge {hash : List UInt8} (h : hash.length = 48) (fuel : Nat) :
+    fromHashG1 hash fuel = tryAndIncrement opsFq (opsFq.ofBytes hash) false fuel := by
+  unfold fromHashG1; rw [fromHashStartFq_eq h]; rfl
+theorem fromHashG2_eq_judge {hash : List UInt8} (h : hash.length = 96) (fuel : Nat) :
+    fromHashG2 hash fuel = tryAndIncrement opsFq2 (opsFq2.ofBytes hash) false fuel := by
+  unfold fromHashG2; rw [fromHashStartFq2_eq h]; rfl
+
+
+/-- Spec curve predicate from the record's curve equation -/
+theorem isOnCurve_g1_of {x y : Fq} (h : opsFq.mul y y = x3b opsFq x) : Pt.isOnCurve g1B (.aff x y) = true := by
+  simp only [Pt.isOnCurve, beq_iff_eq]; exact h
+theorem isOnCurve_g2_of {x y : Fq2} (h : opsFq2.mul y y = x3b opsFq2 x) : Pt.isOnCurve g2B (.aff x y) = true := by
+  simp only [Pt.isOnCurve, beq_iff_eq]; exact h
+
+/-- **`G1Affine::from_hash`: everything it returns.**  With `x₀ = (hash as a big-endian integer mod 2^381) mod q`:
+the point is `(x₀ + n, y)` for the least `n ≥ 0` with `(x₀+n)³ + 4` a square, it lies on the curve (so it is an affine
+point, never the identity), and `y` is the root whose sign bit (`compare(y, −y) == 1` on the stored limbs) is CLEAR. -/
+theorem fromHashG1_spec {hash : List UInt8} (hl : hash.length = 48) {fuel : Nat} {x y : Fq} {n : Nat}
+    (h : fromHashG1 hash fuel = some (x, y, n)) :
+    let x₀ : Fq := Fin.ofNat q (ofBytesBE hash % 2 ^ 381)
+    x = x₀ + (n : Fq) ∧ n < fuel ∧
+      (∀ j, j < n → ¬ ∃ y' : Fq, y' * y' = (x₀ + (j : Fq)) * (x₀ + (j : Fq)) * (x₀ + (j : Fq)) + g1B) ∧
+      Pt.isOnCurve g1B (.aff x y) = true ∧ isGreater opsFq y = false ∧ (Pt.aff x y : G1Pt) ≠ .inf := by
+  intro x₀
+  unfold fromHashG1 at h
+  rw [fromHashStartFq_eq hl] at h
+  obtain ⟨hn, hx, hrej, hon, hgr, _⟩ := tryAndIncrement_spec opsFq_sqrtOK h
+  refine ⟨by rw [hx, incr_opsFq], hn, ?_, isOnCurve_g1_of hon, hgr, fun e => by cases e⟩
+  intro j hj
+  have := hrej j hj
+  rwa [incr_opsFq] at this
+
+/-- **`G1Affine::from_hash` is total**: for every 48-byte hash the loop stops after at most `(−x₀).val < q` increments;
+any fuel above that (e.g. `q`) makes the model return. -/
+theorem fromHashG1_total {hash : List UInt8} (hl : hash.length = 48) (fuel : Nat)
+    (hf : (-(Fin.ofNat q (ofBytesBE hash % 2 ^ 381) : Fq)).val < fuel) :
+    ∃ (x y : Fq) (n : Nat), fromHashG1 hash fuel = some (x, y, n) ∧ n ≤ (-(Fin.ofNat q (ofBytesBE hash % 2 ^ 381) : Fq)).val := by
+  unfold fromHashG1
+  rw [fromHashStartFq_eq hl]
+  obtain ⟨n, y, h, hn, _⟩ := g1_tryAndIncrement_total (Fin.ofNat q (ofBytesBE hash % 2 ^ 381)) false fuel hf
+  exact ⟨_, y, n, h, hn⟩
+
+theorem fromHashG1_total_q {hash : List UInt8} (hl : hash.length = 48) : (fromHashG1 hash q).isSome = true := by
+  obtain ⟨x, y, n, h, _⟩ := fromHashG1_total hl q (Fin.isLt _)
+  rw [h]; rfl
+
+/-- **`from_hash` with the judge's fuel 512, PARTIAL**: returns provided one of the 512 abscissae `x₀ … x₀+511` carries a
+point (heuristically this fails with probability 2^-512 per hash; no proof of it is known — it would need a bound on runs
+of consecutive non-squares of `x³+4` far below what character-sum estimates give). -/
+theorem fromHashG1_total_512_partial {hash : List UInt8} (hl : hash.length = 48)
+    (h : ∃ n : Nat, n < 512 ∧ ∃ y : Fq, y * y = ((Fin.ofNat q (ofBytesBE hash % 2 ^ 381) : Fq) + (n : Fq)) *
+        ((Fin.ofNat q (ofBytesBE hash % 2 ^ 381) : Fq) + (n : Fq)) * ((Fin.ofNat q (ofBytesBE hash % 2 ^ 381) : Fq) + (n : Fq)) + g1B) :
+    (fromHashG1 hash 512).isSome = true := by
+  unfold fromHashG1
+  rw [fromHashStartFq_eq hl]
+  obtain ⟨n, hn, hp⟩ := h
+  obtain ⟨n', y, h', _⟩ := tryAndIncrement_total_partial opsFq_sqrtOK false
+    (Fin.ofNat q (ofBytesBE hash % 2 ^ 381) : Fq) 512 ⟨n, hn, by rw [incr_opsFq]; exact hp⟩
+  simp only [h']; rfl
+
+/-- **`G2Affine::from_hash`: everything it returns** (start value: c1 from the first 48 bytes, c0 from the last 48, each
+masked to 381 bits and reduced; only c0 is incremented). -/
+theorem fromHashG2_spec {hash : List UInt8} (hl : hash.length = 96) {fuel : Nat} {x y : Fq2} {n : Nat}
+    (h : fromHashG2 hash fuel = some (x, y, n)) :
+    let a₀ : Fq := Fin.ofNat q (ofBytesBE (hash.drop 48) % 2 ^ 381)
+    let t : Fq := Fin.ofNat q (ofBytesBE (hash.take 48) % 2 ^ 381)
+    x = ⟨a₀ + (n : Fq), t⟩ ∧ n < fuel ∧
+      (∀ j, j < n → ¬ ∃ y' : Fq2, y' * y' = (⟨a₀ + (j : Fq), t⟩ : Fq2) * ⟨a₀ + (j : Fq), t⟩ * ⟨a₀ + (j : Fq), t⟩ + g2B) ∧
+      Pt.isOnCurve g2B (.aff x y) = true ∧ isGreater opsFq2 y = false ∧ (Pt.aff x y : G2Pt) ≠ .inf := by
+  intro a₀ t
+  unfold fromHashG2 at h
+  rw [fromHashStartFq2_eq hl] at h
+  obtain ⟨hn, hx, hrej, hon, hgr, _⟩ := tryAndIncrement_spec opsFq2_sqrtOK h
+  refine ⟨by rw [hx, incr_opsFq2], hn, ?_, isOnCurve_g2_of hon, hgr, fun e => by cases e⟩
+  intro j hj
+  have := hrej j hj
+  rwa [incr_opsFq2] at this
+
+/-- **`G2Affine::from_hash`, totality, PARTIAL** (under `HLine` for the c1 coordinate read from the hash). -/
+theorem fromHashG2_total_partial {hash : List UInt8} (hl : hash.length = 96)
+    (h : HLine (Fin.ofNat q (ofBytesBE (hash.take 48) % 2 ^ 381))) : (fromHashG2 hash q).isSome = true := by
+  unfold fromHashG2
+  rw [fromHashStartFq2_eq hl]
+  exact g2_tryAndIncrement_total_q_partial _ false h
+
+/-- determinism / platform independence: `from_hash` is a function of the hash bytes alone, and the fuel of the model is
+immaterial once it suffices. -/
+theorem fromHashG1_fuel_irrelevant {hash : List UInt8} {f₁ f₂ : Nat} {r₁ r₂ : Fq × Fq × Nat}
+    (h₁ : fromHashG1 hash f₁ = some r₁) (h₂ : fromHashG1 hash f₂ = some r₂) : r₁ = r₂ :=
+  tryAndIncrement_fuel_irrelevant opsFq_sqrtOK h₁ h₂
+theorem fromHashG2_fuel_irrelevant {hash : List UInt8} {f₁ f₂ : Nat} {r₁ r₂ : Fq2 × Fq2 × Nat}
+    (h₁ : fromHashG2 hash f₁ = some r₁) (h₂ : fromHashG2 hash f₂ = some r₂) : r₁ = r₂ :=
+  tryAndIncrement_fuel_irrelevant opsFq2_sqrtOK h₁ h₂
+
+/-! ### identity derivation (LQ-IBE `compute_id_from_hash`) -/
+
+/-- **H-card for G1**, exactly as much as is used: every point of E(Fq) is killed by `cofactor · r`
+(true because `#E(Fq) = g1Cofactor · r`; no point counting in Lean). -/
+def HCardG1 : Prop := ∀ P : G1Pt, Pt.isOnCurve g1B P = true → Pt.smul (g1Cofactor * r) P = .inf
+/-- **H-card for G2**: every point of the twist E'(Fq2) is killed by `cofactor · r`. -/
+def HCardG2 : Prop := ∀ P : G2Pt, Pt.isOnCurve g2B P = true → Pt.smul (g2Cofactor * r) P = .inf
+
+/-- `compute_id_from_hash`: `from_hash`, then multiplication by the G1 cofactor (judge op `id_hash`; the judge evaluates the
+multiple with `Pt.smulFast`). -/
+def idHash (hash : List UInt8) (fuel : Nat) : Option G1Pt :=
+  match fromHashG1 hash fuel with
+  | some (x, y, _) => some (Pt.smulFast g1Cofactor (.aff x y))
+  | none => none
+
+/-- cofactor clearing, generic: `[r]([h]P) = ∞` under H-card. -/
+theorem smul_r_smul_cofactor {K : Type} [Field K] [DecidableEq K] {b : K} (hc : CurveHyp b) {h : Nat} {P : Pt K}
+    (hP : Pt.isOnCurve b P = true) (hcard : Pt.smul (h * r) P = .inf) : Pt.smul r (Pt.smul h P) = .inf := by
+  rw [← Pt.smul_mul' hc hP, Nat.mul_comm]; exact hcard
+
+/-- **identity derivation**: the result is `[g1Cofactor]·from_hash(hash)` (Spec scalar multiplication), it lies on the
+curve, and UNDER `HCardG1` it is killed by `r`, i.e. it lies in G1. -/
+theorem idHash_spec {hash : List UInt8} (hl : hash.length = 48) {fuel : Nat} {p : G1Pt} (h : idHash hash fuel = some p) :
+    ∃ (x y : Fq) (n : Nat), fromHashG1 hash fuel = some (x, y, n) ∧ p = Pt.smul g1Cofactor (.aff x y) ∧
+      Pt.isOnCurve g1B p = true ∧ (HCardG1 → Pt.smul r p = .inf ∧ inSubgroup p = true) := by
+  unfold idHash at h
+  cases hf : fromHashG1 hash fuel with
+  | none => rw [hf] at h; cases h
+  | some t =>
+    obtain ⟨x, y, n⟩ := t
+    rw [hf] at h
+    injection h with h
+    obtain ⟨_, _, _, hon, _, _⟩ := fromHashG1_spec hl hf
+    have hp : p = Pt.smul g1Cofactor (.aff x y) := by rw [← h, smulFast_eq' curveHyp_g1.two hon]
+    refine ⟨x, y, n, rfl, hp, by rw [hp]; exact Pt.smul_isOnCurve curveHyp_g1.two hon _, fun hc => ?_⟩
+    have : Pt.smul r p = .inf := by rw [hp]; exact smul_r_smul_cofactor curveHyp_g1 hon (hc _ hon)
+    exact ⟨this, by unfold inSubgroup; rw [this]; rfl⟩
+
+theorem idHash_of_some {hash : List UInt8} {fuel : Nat} {x y : Fq} {n : Nat} (h : fromHashG1 hash fuel = some (x, y, n)) :
+    idHash hash fuel = some (Pt.smulFast g1Cofactor (.aff x y)) := by
+  unfold idHash; rw [h]
+
+/-- identity derivation is total (fuel `q`; explicit bound as for `from_hash`). -/
+theorem idHash_total {hash : List UInt8} (hl : hash.length = 48) : ∃ p, idHash hash q = some p := by
+  obtain ⟨x, y, n, h, _⟩ := fromHashG1_total hl q (Fin.isLt _)
+  exact ⟨_, idHash_of_some h⟩
+
+end FromHash
+end Jedi.Impl
+
+namespace Jedi.Driver
+open Jedi Jedi.Impl
+
+/-! ## 4. `sample_random_generator` (model `Driver.genSample`, judge op `rand`, `sampleG1`, `sampleG2`) -/
+section GenSample
+variable {F : Type} (o : CurveOps F) (fo : FieldOps F) (cof : Nat)
+
+/-- the stream after one pass through the inner loop body: `x.random(get_random_bytes); get_random_bytes(&b, 1)`. -/
+def genNext (s : RS) : RS := ((o.randF s).2.draw 1).2
+/-- the flag `(b & 0x1) == 0x1` of that pass. -/
+def genFlag (s : RS) : Bool := ((((o.randF s).2.draw 1).1.headD 0).toNat % 2 == 1)
+/-- the curve point `get_point_from_x(x, flag, true)` produces in that pass (`none`: it refused). -/
+def genDraw (s : RS) : Option (F × F) :=
+  match (o.randF s).1 with
+  | none => none
+  | some x => fromX fo x (genFlag o s) true
+/-- what the pass contributes: the cofactor multiple of the drawn point unless that is the identity. -/
+def genAccept (d : Option (F × F)) : Option (Pt F) :=
+  match d with
+  | none => none
+  | some (x, y) => if o.beqPt (o.smul cof (.aff x y)) .inf then none else some (o.smul cof (.aff x y))
+def genCand (s : RS) : Option (Pt F) := genAccept o cof (genDraw o fo s)
+/-- the stream after `k` passes. -/
+def genAfter : Nat → RS → RS
+  | 0, s => s
+  | k+1, s => genAfter k (genNext o s)
+
+theorem genAfter_succ' (k : Nat) (s : RS) : genAfter o (k + 1) s = genNext o (genAfter o k s) := by
+  induction k generalizing s with
+  | zero => rfl
+  | succ k ih => rw [genAfter, ih]; rfl
+
+theorem genSample_succ (hr : ∀ s, (o.randF s).1.isSome = true) (fuel : Nat) (s : RS) :
+    genSample o fo cof (fuel + 1) s =
+      match genCand o fo cof s with
+      | some p => some (p, genNext o s)
+      | none => genSample o fo cof fuel (genNext o s) := by
+  have hr' := hr s
+  unfold genCand genAccept genDraw genNext genFlag
+  rcases hrs : o.randF s with ⟨x, s1⟩
+  rw [hrs] at hr'
+  rcases hd : s1.draw 1 with ⟨fb, s2⟩
+  simp only [genSample, hrs, hd]
+  cases x with
+  | none => cases hr'
+  | some x =>
+    simp only []
+    cases hx : fromX fo x ((fb.headD 0).toNat % 2 == 1) true with
+    | none => simp only []
+    | some xy =>
+      obtain ⟨x', y'⟩ := xy
+      simp only []
+      cases hb : o.beqPt (o.smul cof (.aff x' y')) .inf <;> simp
+
+variable (hr : ∀ s, (o.randF s).1.isSome = true)
+include hr
+
+/-- **first accepted pass, forward.** -/
+theorem genSample_first_hit : ∀ (k fuel : Nat) (s : RS) (p : Pt F), k < fuel →
+    (∀ j, j < k → genCand o fo cof (genAfter o j s) = none) → genCand o fo cof (genAfter o k s) = some p →
+    genSample o fo cof fuel s = some (p, genAfter o (k + 1) s) := by
+  intro k
+  induction k with
+  | zero =>
+    intro fuel s p hf _ hacc
+    obtain ⟨fuel, rfl⟩ : ∃ f, fuel = f + 1 := ⟨fuel - 1, by omega⟩
+    rw [genSample_succ o fo cof hr]
+    simp only [genAfter] at hacc
+    rw [hacc]; rfl
+  | succ k ih =>
+    intro fuel s p hf hrej hacc
+    obtain ⟨fuel, rfl⟩ : ∃ f, fuel = f + 1 := ⟨fuel - 1, by omega⟩
+    rw [genSample_succ o fo cof hr]
+    have h0 := hrej 0 (by omega)
+    simp only [genAfter] at h0
+    rw [h0]
+    exact ih fuel (genNext o s) p (by omega) (fun j hj => hrej (j + 1) (by omega)) hacc
+
+/-- **first accepted pass, backward**: whatever the sampler returns is the contribution of the first accepted pass, and
+the stream is left just after that pass. -/
+theorem genSample_some : ∀ (fuel : Nat) (s : RS) (p : Pt F) (s' : RS), genSample o fo cof fuel s = some (p, s') →
+    ∃ k, k < fuel ∧ (∀ j, j < k → genCand o fo cof (genAfter o j s) = none) ∧
+      genCand o fo cof (genAfter o k s) = some p ∧ s' = genAfter o (k + 1) s := by
+  intro fuel
+  induction fuel with
+  | zero => intro s p s' h; cases h
+  | succ fuel ih =>
+    intro s p s' h
+    rw [genSample_succ o fo cof hr] at h
+    cases hc : genCand o fo cof s with
+    | some p' =>
+      rw [hc] at h
+      injection h with h; injection h with h1 h2
+      subst h1; subst h2
+      exact ⟨0, by omega, fun j hj => by omega, hc, rfl⟩
+    | none =>
+      rw [hc] at h
+      obtain ⟨k, hk, hrej, hacc, hs'⟩ := ih _ _ _ h
+      refine ⟨k + 1, by omega, ?_, hacc, hs'⟩
+      intro j hj
+      cases j with
+      | zero => exact hc
+      | succ j => exact hrej j (by omega)
+
+/-- the model runs out of fuel exactly when the first `fuel` passes are all rejected. -/
+theorem genSample_none_iff (fuel : Nat) (s : RS) :
+    genSample o fo cof fuel s = none ↔ ∀ j, j < fuel → genCand o fo cof (genAfter o j s) = none := by
+  constructor
+  · intro h j hj
+    by_contra hne
+    classical
+    have hex : ∃ n, genCand o fo cof (genAfter o n s) ≠ none := ⟨j, hne⟩
+    have hle : Nat.find hex ≤ j := Nat.find_min' hex hne
+    obtain ⟨p, hp⟩ := Option.ne_none_iff_exists'.mp (Nat.find_spec hex)
+    have := genSample_first_hit o fo cof hr (Nat.find hex) fuel s p (by omega)
+      (fun i hi => by simpa using Nat.find_min hex hi) hp
+    rw [h] at this; cases this
+  · intro h
+    cases hs : genSample o fo cof fuel s with
+    | none => rfl
+    | some t =>
+      obtain ⟨p, s'⟩ := t
+      obtain ⟨k, hk, _, hacc, _⟩ := genSample_some o fo cof hr fuel s p s' hs
+      rw [h k hk] at hacc; cases hacc
+
+end GenSample
+
+/-! ### the accepted value, over a field -/
+section GenField
+variable {K : Type} [Field K] [DecidableEq K] (o : CurveOps K) (fo : FieldOps K) (cof : Nat) {b : K}
+
+/-- what ties a judge record pair `(o, fo)` to the curve `y² = x³ + b` over the field `K`. -/
+structure GenOK (o : CurveOps K) (fo : FieldOps K) (b : K) : Prop where
+  hc : CurveHyp b
+  sq : SqrtOK fo
+  onCurve : ∀ x y, fo.mul y y = x3b fo x → Pt.isOnCurve b (.aff x y) = true
+  smul : ∀ n (p : Pt K), o.smul n p = Pt.smulFast n p
+  beq : ∀ p q : Pt K, o.beqPt p q = true ↔ p = q
+
+variable {o fo cof}
+
+/-- **the value a pass contributes**: `[cof]P` for the drawn curve point `P`, provided that is not the identity. -/
+theorem genCand_some_iff (ok : GenOK o fo b) (s : RS) (p : Pt K) :
+    genCand o fo cof s = some p ↔
+      ∃ x y, genDraw o fo s = some (x, y) ∧ Pt.isOnCurve b (.aff x y) = true ∧
+        p = Pt.smul cof (.aff x y) ∧ p ≠ .inf := by
+  unfold genCand genAccept
+  cases hd : genDraw o fo s with
+  | none => simp
+  | some xy =>
+    obtain ⟨x, y⟩ := xy
+    have hon : Pt.isOnCurve b (.aff x y) = true := by
+      unfold genDraw at hd
+      cases hx : (o.randF s).1 with
+      | none => rw [hx] at hd; cases hd
+      | some x0 =>
+        rw [hx] at hd
+        obtain ⟨hx', h, _⟩ := fromX_checked_some ok.sq hd
+        subst hx'
+        exact ok.onCurve _ _ h
+    have hs : o.smul cof (.aff x y) = Pt.smul cof (.aff x y) := by rw [ok.smul, smulFast_eq' ok.hc.two hon]
+    simp only [hs]
+    by_cases he : Pt.smul cof (.aff x y) = .inf
+    · have : o.beqPt (Pt.smul cof (.aff x y)) .inf = true := (ok.beq _ _).mpr he
+      rw [if_pos this]
+      constructor
+      · intro h; cases h
+      · rintro ⟨x', y', hxy, _, rfl, hne⟩
+        injection hxy with hxy; injection hxy with h1 h2
+        subst h1; subst h2
+        exact absurd he hne
+    · have : ¬ o.beqPt (Pt.smul cof (.aff x y)) .inf = true := fun h => he ((ok.beq _ _).mp h)
+      rw [if_neg this]
+      constructor
+      · intro h
+        injection h with h
+        exact ⟨x, y, rfl, hon, h.symm, by rw [← h]; exact he⟩
+      · rintro ⟨x', y', hxy, _, rfl, _⟩
+        injection hxy with hxy; injection hxy with h1 h2
+        subst h1; subst h2; rfl
+
+/-- **`sample_random_generator`: everything it returns.**  The result is `[cof]P` for the point `P` drawn in the FIRST
+pass whose cofactor multiple is not the identity (all earlier passes: no point above the drawn abscissa, or multiple = ∞);
+it lies on the curve, is not the identity, the stream is left just after that pass; and if `[cof·r]` kills `P`
+(H-card) the result is killed by `r`. -/
+theorem genSample_spec (ok : GenOK o fo b) (hr : ∀ s, (o.randF s).1.isSome = true) {fuel : Nat} {s s' : RS} {p : Pt K}
+    (h : genSample o fo cof fuel s = some (p, s')) :
+    ∃ (k : Nat) (x y : K), k < fuel ∧ s' = genAfter o (k + 1) s ∧
+      (∀ j, j < k → genCand o fo cof (genAfter o j s) = none) ∧
+      genDraw o fo (genAfter o k s) = some (x, y) ∧ Pt.isOnCurve b (.aff x y) = true ∧
+      p = Pt.smul cof (.aff x y) ∧ p ≠ .inf ∧ Pt.isOnCurve b p = true ∧
+      (Pt.smul (cof * r) (.aff x y) = .inf → Pt.smul r p = .inf ∧ inSubgroup p = true) := by
+  obtain ⟨k, hk, hrej, hacc, hs'⟩ := genSample_some o fo cof hr fuel s p s' h
+  obtain ⟨x, y, hd, hon, hp, hne⟩ := (genCand_some_iff ok _ _).mp hacc
+  refine ⟨k, x, y, hk, hs', hrej, hd, hon, hp, hne, by rw [hp]; exact Pt.smul_isOnCurve ok.hc.two hon _, fun hc => ?_⟩
+  have : Pt.smul r p = .inf := by rw [hp]; exact smul_r_smul_cofactor ok.hc hon hc
+  exact ⟨this, by unfold inSubgroup; rw [this]; rfl⟩
+
+end GenField
+
+/-! ### the two groups -/
+section Concrete
+
+theorem randFqRaw_lt' (s : RS) : (randFqRaw s).1 < q := Jedi.randBelow_lt (by decide) _ _ _ s
+
+/-- `Fq::random` as the judge reads it: the accepted limbs ARE the stored (Montgomery) limbs of the sampled element. -/
+theorem curveG1_randF (s : RS) : curveG1.randF s = (some (unmontC (randFqRaw s).1), (randFqRaw s).2) := by
+  show ((unmontQ (randFqRaw s).1).toOption, (randFqRaw s).2) = _
+  unfold unmontQ
+  rw [if_pos (randFqRaw_lt' s)]; rfl
+
+/-- `Fq2::random`: `c0.random(); c1.random();`. -/
+theorem curveG2_randF (s : RS) :
+    curveG2.randF s = (some ⟨unmontC (randFqRaw s).1, unmontC (randFqRaw (randFqRaw s).2).1⟩,
+      (randFqRaw (randFqRaw s).2).2) := by
+  show ((match (unmontQ (randFqRaw s).1).toOption, (unmontQ (randFqRaw (randFqRaw s).2).1).toOption with
+       | some a, some b => some (⟨a, b⟩ : Fq2)
+       | _, _ => none), (randFqRaw (randFqRaw s).2).2) = _
+  unfold unmontQ
+  rw [if_pos (randFqRaw_lt' s), if_pos (randFqRaw_lt' _)]; rfl
+
+theorem curveG1_randF_isSome (s : RS) : (curveG1.randF s).1.isSome = true := by rw [curveG1_randF]; rfl
+theorem curveG2_randF_isSome (s : RS) : (curveG2.randF s).1.isSome = true := by rw [curveG2_randF]; rfl
+
+theorem genOK_g1 : GenOK curveG1 opsFq g1B where
+  hc := curveHyp_g1
+  sq := opsFq_sqrtOK
+  onCurve _ _ h := isOnCurve_g1_of h
+  smul _ _ := rfl
+  beq _ _ := beq_iff_eq
+theorem genOK_g2 : GenOK curveG2 opsFq2 g2B where
+  hc := curveHyp_g2
+  sq := opsFq2_sqrtOK
+  onCurve _ _ h := isOnCurve_g2_of h
+  smul _ _ := rfl
+  beq _ _ := beq_iff_eq
+
+/-- **`G1::random_generator`** (judge: `sampleG1`, op `g1_rand`): for every stream on which the model returns. -/
+theorem sampleG1_spec {fuel : Nat} {s s' : RS} {p : G1Pt}
+    (h : genSample curveG1 opsFq g1Cofactor fuel s = some (p, s')) :
+    ∃ (k : Nat) (x y : Fq), k < fuel ∧ s' = genAfter curveG1 (k + 1) s ∧
+      (∀ j, j < k → genCand curveG1 opsFq g1Cofactor (genAfter curveG1 j s) = none) ∧
+      genDraw curveG1 opsFq (genAfter curveG1 k s) = some (x, y) ∧ Pt.isOnCurve g1B (.aff x y) = true ∧
+      p = Pt.smul g1Cofactor (.aff x y) ∧ p ≠ .inf ∧ Pt.isOnCurve g1B p = true ∧
+      (HCardG1 → Pt.smul r p = .inf ∧ inSubgroup p = true) := by
+  obtain ⟨k, x, y, h1, h2, h3, h4, h5, h6, h7, h8, h9⟩ := genSample_spec genOK_g1 curveG1_randF_isSome h
+  exact ⟨k, x, y, h1, h2, h3, h4, h5, h6, h7, h8, fun hc => h9 (hc _ h5)⟩
+
+/-- **`G2::random_generator`** (judge: `sampleG2`, op `g2_rand`). -/
+theorem sampleG2_spec {fuel : Nat} {s s' : RS} {p : G2Pt}
+    (h : genSample curveG2 opsFq2 g2Cofactor fuel s = some (p, s')) :
+    ∃ (k : Nat) (x y : Fq2), k < fuel ∧ s' = genAfter curveG2 (k + 1) s ∧
+      (∀ j, j < k → genCand curveG2 opsFq2 g2Cofactor (genAfter curveG2 j s) = none) ∧
+      genDraw curveG2 opsFq2 (genAfter curveG2 k s) = some (x, y) ∧ Pt.isOnCurve g2B (.aff x y) = true ∧
+      p = Pt.smul g2Cofactor (.aff x y) ∧ p ≠ .inf ∧ Pt.isOnCurve g2B p = true ∧
+      (HCardG2 → Pt.smul r p = .inf ∧ inSubgroup p = true) := by
+  obtain ⟨k, x, y, h1, h2, h3, h4, h5, h6, h7, h8, h9⟩ := genSample_spec genOK_g2 curveG2_randF_isSome h
+  exact ⟨k, x, y, h1, h2, h3, h4, h5, h6, h7, h8, fun hc => h9 (hc _ h5)⟩
+
+/-- the abscissa and flag of a G1 pass, in terms of the stream: x = the element whose stored limbs are the first 48-byte
+draw (little-endian, top three bits cleared) below `q`; flag = low bit of the byte that follows. -/
+theorem genDraw_g1 (s : RS) :
+    genDraw curveG1 opsFq s =
+      fromX opsFq (unmontC (randFqRaw s).1) ((((randFqRaw s).2.draw 1).1.headD 0).toNat % 2 == 1) true := by
+  unfold genDraw genFlag; rw [curveG1_randF]
+theorem genDraw_g2 (s : RS) :
+    genDraw curveG2 opsFq2 s =
+      fromX opsFq2 ⟨unmontC (randFqRaw s).1, unmontC (randFqRaw (randFqRaw s).2).1⟩
+        ((((randFqRaw (randFqRaw s).2).2.draw 1).1.headD 0).toNat % 2 == 1) true := by
+  unfold genDraw genFlag; rw [curveG2_randF]
+
+/-- **stream position accounting, G1**: a pass consumes `j + 1` draws of 48 bytes (`j` = number of candidates `≥ q` that
+`Fq::random` rejects) and one flag byte. -/
+theorem genNext_g1 (s : RS) :
+    ∃ j, j < s.fuel 48 ∧ (∀ i, i < j → ¬ RS.candidate 48 381 (RS.after 48 i s) < q) ∧
+      RS.candidate 48 381 (RS.after 48 j s) < q ∧ (randFqRaw s).1 = RS.candidate 48 381 (RS.after 48 j s) ∧
+      genNext curveG1 s = ((RS.after 48 (j + 1) s).draw 1).2 ∧
+      (genNext curveG1 s).used + (genNext curveG1 s).over = s.used + s.over + 48 * (j + 1) + 1 := by
+  obtain ⟨j, hj, hrej, hacc, he⟩ := Jedi.randBelow_accepts (bound := q) (by decide) 48 381 s
+  have he' : randFqRaw s = (RS.candidate 48 381 (RS.after 48 j s), RS.after 48 (j + 1) s) := he
+  have hn : genNext curveG1 s = ((RS.after 48 (j + 1) s).draw 1).2 := by
+    unfold genNext; rw [curveG1_randF, he']
+  refine ⟨j, hj, hrej, hacc, by rw [he'], hn, ?_⟩
+  rw [hn, RS.draw_counters, RS.after_counters]; ring
+
+/-- **stream position accounting, G2**: two `Fq::random` calls (c0, then c1) and one flag byte. -/
+theorem genNext_g2 (s : RS) :
+    ∃ j₀ j₁, (randFqRaw s).2 = RS.after 48 (j₀ + 1) s ∧
+      (randFqRaw (randFqRaw s).2).2 = RS.after 48 (j₁ + 1) (RS.after 48 (j₀ + 1) s) ∧
+      genNext curveG2 s = ((RS.after 48 (j₁ + 1) (RS.after 48 (j₀ + 1) s)).draw 1).2 ∧
+      (genNext curveG2 s).used + (genNext curveG2 s).over = s.used + s.over + 48 * (j₀ + 1) + 48 * (j₁ + 1) + 1 := by
+  obtain ⟨j₀, _, _, _, he₀⟩ := Jedi.randBelow_accepts (bound := q) (by decide) 48 381 s
+  have he₀' : randFqRaw s = (RS.candidate 48 381 (RS.after 48 j₀ s), RS.after 48 (j₀ + 1) s) := he₀
+  obtain ⟨j₁, _, _, _, he₁⟩ := Jedi.randBelow_accepts (bound := q) (by decide) 48 381 (RS.after 48 (j₀ + 1) s)
+  have he₁' : randFqRaw (RS.after 48 (j₀ + 1) s) = (RS.candidate 48 381 (RS.after 48 j₁ (RS.after 48 (j₀ + 1) s)),
+      RS.after 48 (j₁ + 1) (RS.after 48 (j₀ + 1) s)) := he₁
+  have h2 : (randFqRaw s).2 = RS.after 48 (j₀ + 1) s := by rw [he₀']
+  have h3 : (randFqRaw (randFqRaw s).2).2 = RS.after 48 (j₁ + 1) (RS.after 48 (j₀ + 1) s) := by rw [h2, he₁']
+  have hn : genNext curveG2 s = ((RS.after 48 (j₁ + 1) (RS.after 48 (j₀ + 1) s)).draw 1).2 := by
+    unfold genNext; rw [curveG2_randF, h3]
+  refine ⟨j₀, j₁, h2, h3, hn, ?_⟩
+  rw [hn, RS.draw_counters, RS.after_counters, RS.after_counters]; ring
+
+/-- every pass consumes at least 49 (G1) bytes: after `k` passes at least `49·k` bytes of the stream (or padding) are gone. -/
+theorem genAfter_g1_counters (k : Nat) (s : RS) :
+    s.used + s.over + 49 * k ≤ (genAfter curveG1 k s).used + (genAfter curveG1 k s).over := by
+  induction k generalizing s with
+  | zero => simp [genAfter]
+  | succ k ih =>
+    rw [genAfter]
+    obtain ⟨j, _, _, _, _, _, hc⟩ := genNext_g1 s
+    have := ih (genNext curveG1 s)
+    omega
+
+
+/-! ### the sampler is NOT total: on an exhausted (all-zero) stream it never returns
+
+With a `get_random_bytes` that delivers zeros, `Fq::random` yields the element with limbs 0, i.e. `x = 0`, and the flag 0.
+On E(Fq) the points above `x = 0` are `(0, ±2)`, of order 3, and `3 ∣ g1Cofactor`: the cofactor multiple is the identity and
+the outer `do … while (result.is_zero())` loop repeats forever.  On the twist, `0³ + 4(1+u)` is a non-square: the inner loop
+repeats forever.  (The model returns `none` for every fuel.)  So the sampler statements are partial-correctness statements. -/
+
+theorem RS.draw_of_empty (s : RS) (h : s.bytes = []) (n : Nat) :
+    (s.draw n).1 = List.replicate n 0 ∧ (s.draw n).2.bytes = [] := by
+  constructor
+  · rw [RS.draw_eq, h, List.nil_append, List.take_replicate, Nat.min_self]
+  · rw [RS.draw_bytes, h, List.drop_nil]
+
+theorem randFqRaw_of_empty (s : RS) (h : s.bytes = []) : randFqRaw s = (0, RS.after 48 1 s) := by
+  have hc : RS.candidate 48 381 (RS.after 48 0 s) = 0 := RS.candidate_of_empty 48 381 s h
+  have := Jedi.randBelow_first_hit 48 381 q (s.fuel 48) 0 s (by unfold RS.fuel; omega) (fun j hj => by omega)
+    (by rw [hc]; decide)
+  rw [hc] at this
+  exact this
+
+theorem RS.after_one_empty (s : RS) (h : s.bytes = []) : (RS.after 48 1 s).bytes = [] := by
+  rw [RS.after_bytes, h]; rfl
+
+theorem unmontC_zero : unmontC 0 = 0 := by decide +kernel
+
+theorem g1_zero_rejected :
+    genAccept curveG1 g1Cofactor
+      (fromX opsFq (unmontC 0) (((List.replicate 1 (0 : UInt8)).headD 0).toNat % 2 == 1) true) = none := by
+  decide +kernel
+
+theorem g2B_legendre : opsFq2.legendre (x3b opsFq2 0) = -1 := by decide +kernel
+theorem g2_zero_rejected : fromX opsFq2 0 false true = none := by
+  rw [fromX_checked_none_iff opsFq2_sqrtOK, ← opsFq2_sqrtOK.leg_iff, g2B_legendre]; simp
+
+theorem genCand_g1_of_empty (s : RS) (h : s.bytes = []) : genCand curveG1 opsFq g1Cofactor s = none := by
+  unfold genCand
+  rw [genDraw_g1, randFqRaw_of_empty s h]
+  simp only [(RS.draw_of_empty _ (RS.after_one_empty s h) 1).1]
+  exact g1_zero_rejected
+
+theorem genCand_g2_of_empty (s : RS) (h : s.bytes = []) : genCand curveG2 opsFq2 g2Cofactor s = none := by
+  unfold genCand
+  have h1 := RS.after_one_empty s h
+  rw [genDraw_g2, randFqRaw_of_empty s h]
+  simp only [randFqRaw_of_empty _ h1, (RS.draw_of_empty _ (RS.after_one_empty _ h1) 1).1, unmontC_zero]
+  have : (⟨0, 0⟩ : Fq2) = 0 := rfl
+  rw [this]
+  simp only [show (List.replicate 1 (0 : UInt8)).headD 0 = 0 from rfl, show ((0 : UInt8).toNat % 2 == 1) = false from rfl,
+    g2_zero_rejected]
+  rfl
+
+theorem genNext_g1_of_empty (s : RS) (h : s.bytes = []) : (genNext curveG1 s).bytes = [] := by
+  unfold genNext
+  rw [curveG1_randF, randFqRaw_of_empty s h]
+  exact (RS.draw_of_empty _ (RS.after_one_empty s h) 1).2
+
+theorem genNext_g2_of_empty (s : RS) (h : s.bytes = []) : (genNext curveG2 s).bytes = [] := by
+  unfold genNext
+  have h1 := RS.after_one_empty s h
+  rw [curveG2_randF, randFqRaw_of_empty s h]
+  simp only [randFqRaw_of_empty _ h1]
+  exact (RS.draw_of_empty _ (RS.after_one_empty _ h1) 1).2
+
+/-- **on an exhausted stream the G1 sampler never returns** (every pass yields `(0, ±2)`, which the cofactor kills). -/
+theorem genSample_g1_of_empty (fuel : Nat) (s : RS) (h : s.bytes = []) :
+    genSample curveG1 opsFq g1Cofactor fuel s = none := by
+  rw [genSample_none_iff _ _ _ curveG1_randF_isSome]
+  intro j _
+  have : ∀ (j : Nat) (s : RS), s.bytes = [] → (genAfter curveG1 j s).bytes = [] := by
+    intro j
+    induction j with
+    | zero => intro s h; exact h
+    | succ j ih => intro s h; rw [genAfter]; exact ih _ (genNext_g1_of_empty s h)
+  exact genCand_g1_of_empty _ (this j s h)
+
+/-- **on an exhausted stream the G2 sampler never returns** (`0³ + 4(1+u)` is not a square). -/
+theorem genSample_g2_of_empty (fuel : Nat) (s : RS) (h : s.bytes = []) :
+    genSample curveG2 opsFq2 g2Cofactor fuel s = none := by
+  rw [genSample_none_iff _ _ _ curveG2_randF_isSome]
+  intro j _
+  have : ∀ (j : Nat) (s : RS), s.bytes = [] → (genAfter curveG2 j s).bytes = [] := by
+    intro j
+    induction j with
+    | zero => intro s h; exact h
+    | succ j ih => intro s h; rw [genAfter]; exact ih _ (genNext_g2_of_empty s h)
+  exact genCand_g2_of_empty _ (this j s h)
+
+end Concrete
+end Jedi.Driver
+
+namespace Jedi.Driver
+open Jedi Jedi.Impl
+
+/-- the sampler the stateless judge runs for ops `g1_rand`, `g2_rand` (a local definition of Driver/Judge3 `judgeEnc`)
+IS `genSample`. -/
+theorem judge_sample_eq {F : Type} (o : CurveOps F) (fo : FieldOps F) (cof : Nat) (fuel : Nat) (s : RS) :
+    judgeEnc.sample o fo cof fuel s = genSample o fo cof fuel s := by
+  induction fuel generalizing s with
+  | zero => rfl
+  | succ fuel ih =>
+    simp only [judgeEnc.sample, genSample, ih]
+    cases (o.randF s).1 with
+    | none => rfl
+    | some x =>
+      simp only []
+      cases fromX fo x ((((o.randF s).snd.draw 1).fst.headD 0).toNat % 2 == 1) true with
+      | none => rfl
+      | some xy => rfl
+
+/-- the judge's wrappers (fuel `s.fuel 48 + 64` resp. `s.fuel 96 + 64`) -/
+theorem sampleG1_ok {s s' : RS} {p : G1Pt} (h : sampleG1 s = .ok (p, s')) :
+    genSample curveG1 opsFq g1Cofactor (s.fuel 48 + 64) s = some (p, s') := by
+  unfold sampleG1 at h
+  cases hg : genSample curveG1 opsFq g1Cofactor (s.fuel 48 + 64) s with
+  | none => rw [hg] at h; cases h
+  | some t => rw [hg] at h; cases h; rfl
+theorem sampleG2_ok {s s' : RS} {p : G2Pt} (h : sampleG2 s = .ok (p, s')) :
+    genSample curveG2 opsFq2 g2Cofactor (s.fuel 96 + 64) s = some (p, s') := by
+  unfold sampleG2 at h
+  cases hg : genSample curveG2 opsFq2 g2Cofactor (s.fuel 96 + 64) s with
+  | none => rw [hg] at h; cases h
+  | some t => rw [hg] at h; cases h; rfl
+
+/-! ### non-vacuity -/
+example : (fromHashG1 (List.replicate 47 0 ++ [1]) 512).map (·.2.2) = some 3 := by decide +kernel
+example : (fromHashG2 (List.replicate 95 0 ++ [0]) 512).map (·.2.2) = some 2 := by decide +kernel
+/-- the all-zero hash derives the IDENTITY as LQ-IBE identity point: `from_hash` lands on `(0, ±2)`, of order 3 ∣ cofactor. -/
+example : idHash (List.replicate 48 0) 512 = some .inf := by decide +kernel
+example : ∃ p, idHash (List.replicate 47 0 ++ [1]) 512 = some p ∧ p ≠ .inf ∧ inSubgroup p = true := by
+  refine ⟨(idHash (List.replicate 47 0 ++ [1]) 512).getD .inf, ?_⟩; decide +kernel
+example : ∃ p s', sampleG1 { bytes := 1 :: List.replicate 48 0 } = .ok (p, s') ∧ s'.used = 49 ∧ s'.over = 0 :=
+  match h : sampleG1 { bytes := 1 :: List.replicate 48 0 } with
+  | .ok (p, s') => ⟨p, s', rfl, by
+      have : (match sampleG1 { bytes := 1 :: List.replicate 48 0 } with | .ok (_, s) => s.used == 49 && s.over == 0 | _ => false) = true := by
+        decide +kernel
+      rw [h] at this; simpa using this⟩
+  | .error e => by
+      have : (match sampleG1 { bytes := 1 :: List.replicate 48 0 } with | .ok _ => true | _ => false) = true := by decide +kernel
+      rw [h] at this; cases this
+/-- `HLine` holds on the line through the G2 generator's abscissa -/
+example : HLine (0x13e02b6052719f607dacd3a088274f65596bd0d09920b61ab5da61bbdc7f5049334cf11213945d57e5ac7d055d042b7e : Fq) :=
+  ⟨0x024aa2b2f08f0a91260805272dc51051c6e47ad4fa403b02b4510b647ae3d1770bac0326a805bbefd48056c8c121bdb8,
+   ⟨0x0ce5d527727d6e118cc9cdc6da2e351aadfd9baa8cbdd3a76d429a695160d12c923ac9cc3baca289e193548608b82801,
+    0x0606c4a02ea734cc32acd2b02bc28b99cb3e287e85a763af267492ab572e99ab3f370d275cec1da1aaa9075ff05f79be⟩,
+   by decide +kernel⟩
+
+end Jedi.Driver
+
+namespace Jedi.Impl
+open Jedi
+
+/-! ## 5. hashing to Z_r: `zp_from_hash`, `scalar_hash_reduce` -/
+section ZpHash
+
+/-- `embedded_pairing_bls12_381_zp_from_hash` (bls12_381.cpp l.71): `res->val.read_big_endian(hash); res->hash_reduce();`
+on the 256-bit limb array (no Montgomery conversion: the result is a plain integer scalar). -/
+def zpFromHashImpl (hash : List UInt8) : Nat := (frHashReduce (bigintReadBE 32 hash)).2
+
+/-- `wkdibe::scalar_hash_reduce` (api.hpp l.231): `Fr::hash_reduce` on the caller's 256-bit scalar. -/
+def scalarHashReduce (x : Nat) : Nat := (frHashReduce x).2
+
+theorem scalarHashReduce_spec {x : Nat} (hx : x < 2 ^ 256) :
+    scalarHashReduce x = (x % 2 ^ 255) % r ∧ scalarHashReduce x < r := by
+  obtain ⟨_, h2, h3, _⟩ := frHashReduce_spec hx
+  exact ⟨h3, h2⟩
+
+theorem zpFromHashImpl_spec {hash : List UInt8} (h : hash.length = 32) :
+    zpFromHashImpl hash = (ofBytesBE hash % 2 ^ 255) % r ∧ zpFromHashImpl hash = zpFromHash hash ∧
+      zpFromHashImpl hash < r := by
+  have hlt : ofBytesBE hash < 2 ^ 256 := by
+    have := ofBytesBE_lt hash
+    rw [h] at this
+    exact lt_of_lt_of_le this (by decide)
+  unfold zpFromHashImpl
+  rw [bigintReadBE_eq h]
+  obtain ⟨_, h2, h3, _⟩ := frHashReduce_spec hlt
+  exact ⟨h3, h3, h2⟩
+
+example : zpFromHashImpl (List.replicate 32 255) = 2 ^ 255 - 1 - r := by decide +kernel
+
+end ZpHash
 end Jedi.Impl
